@@ -405,7 +405,7 @@ class C13(Check):
                     break
             if not ok:
                 if any(self._same_out(io, nv[n], vm) for nv in model.get("near", [])):
-                    return "TIE: float near-tie (reproduced when every LP optimum is nudged by 1e-10)"
+                    return "TIE: float near-tie (reproduced when every LP optimum is nudged by 1e-10 or every LP is solved inside |v| <= 1e9: float near-tie or a slope below float resolution)"
                 if json.dumps(model["outs"][n], sort_keys=True) != json.dumps(model["alt"][n], sort_keys=True):
                     return "TIE: tie-sensitive step resolved in a mixed way"
                 if "contract" in io and K.has_residue_term(io["contract"]):
